@@ -48,8 +48,9 @@ class DBusProperty:
             instance._dbusProperties = {}
 
         if self.interface is None:
-            # Force object to set it
-            instance._getProperty('', self.pname)
+            # Force object to set it (for every class of the hierarchy:
+            # a name lookup stops at the first class declaring the name)
+            list(instance._iterIFaceCaches())
 
         if self.key is None:
             self.key = self.interface + self.pname
@@ -62,8 +63,9 @@ class DBusProperty:
             instance._dbusProperties = {}
 
         if self.iprop is None:
-            # Force object to set it
-            instance._getProperty('', self.pname)
+            # Force object to set it (for every class of the hierarchy:
+            # a name lookup stops at the first class declaring the name)
+            list(instance._iterIFaceCaches())
 
         if self.key is None:
             self.key = self.interface + self.pname
